@@ -739,6 +739,11 @@ func (w *lfWorld) loop(c *vsched.Chooser, maxSteps int, extra func() []lfEvent, 
 			if !w.gateSafe(g) {
 				continue
 			}
+			// once the system has been stopped the death watch is gone; whether its last Terminated
+			// was dispatched before its own shutdown is a race of no interest (released at teardown)
+			if g.hook == "dw" && !w.sys.Running() {
+				continue
+			}
 			if gateOK != nil && !gateOK(g) {
 				continue
 			}
